@@ -4,6 +4,15 @@ SIM_NOTE = ("trusted base: the behavioural nRF24L01+ simulator (vlib/sim, self-t
             "driver; chip assumptions (a)-(e) of DESIGN.md 2.6")
 
 CHECKS = [
+    {"property_id": "C07", "level": "exploration",
+     "text": "Hypothesis-generated histories of 1..12 public network / mesh calls on drawn nodes of drawn topologies (network family "
+             "and mesh family), every node running its update() loop as a task, under a drawn cyclic loss word (lost packets, lost "
+             "ACKs) and absent / invalid / own destinations; the listening invariant is read from the simulated chip every time any "
+             "public call - including each update() of every node - returns, and on all nodes at quiescence; histories and "
+             "schedules are sampled",
+     "design_ref": "4/C07", "note": SIM_NOTE + "; expected pipe addresses from vlib/ref/netaddr.py for the node's current public "
+     "node_address / multicast_level / allow_multicast",
+     "technique": "stateful property-based testing: Hypothesis-generated call histories with fault injection, chip-level invariant checked after every returning call"},
     {"property_id": "C16", "level": "exploration",
      "text": "a mesh master on a simulated radio receives real MESH_ADDR_REQUEST / MESH_ADDR_RELEASE frames over the air (direct "
              "and relayed) and its replies are read from the air log; every event word to depth 3 (quick) / 4 (thorough) over "
